@@ -19,6 +19,8 @@ type Operands struct {
 	AS []*edwards25519.Scalar
 	AE []*field.Element
 	B  []byte
+	// Backing is the whole caller buffer B is a window of (B itself if none).
+	Backing []byte
 	U  uint32
 	C  int
 }
